@@ -247,6 +247,15 @@ def parsableNumber : Item → Bool
   | .jnum t => (match Num.jcast t with | .bad => false | _ => true)
   | _ => true
 
+/-- the numeric case of `compareItems`: `left` is an int64, float64 or json.Number -/
+def compareNumberItems (op : BinOp) (l r : Item) : CbOut :=
+  if isNumber r then
+    if !parsableNumber l || !parsableNumber r then .val .unknown none else
+    match Num.compareNumeric l r with
+    | some cmp => cmpOut op cmp
+    | none => .panic
+  else .val .unknown none
+
 /-- `exec.compareItems(node, left, right)` -/
 def compareItems (c : Ctx) (op : BinOp) (l r : Item) : CbOut :=
   match l, r with
@@ -257,13 +266,7 @@ def compareItems (c : Ctx) (op : BinOp) (l r : Item) : CbOut :=
     match compareBool a r with
     | some cmp => cmpOut op cmp
     | none => .val .unknown none
-  | .int _, _ | .flt _, _ | .jnum _, _ =>
-    if isNumber r then
-      if !parsableNumber l || !parsableNumber r then .val .unknown none else
-      match Num.compareNumeric l r with
-      | some cmp => cmpOut op cmp
-      | none => .panic
-    else .val .unknown none
+  | .int _, _ | .flt _, _ | .jnum _, _ => compareNumberItems op l r
   | .str a, .str b =>
     let cmp : Int := match Item.strCmp a b with | .lt => -1 | .eq => 0 | .gt => 1
     if op = .eq then .val (predFrom (cmp = 0)) none
@@ -999,14 +1002,17 @@ def indexSubStep (c : Ctx) (item : ItemK) (nx : Option Node) (xs : List Item) (v
   | (s1, .ok (from_, to_)) =>
     (sliceRange xs from_ to_).foldl (indexElemStep c item nx) { a with st := s1 }
 
+/-- the array a subscript applies to: the value itself, or in lax mode (`autoWrap`) the one-element
+    array of a non-array value; `none` = strict mode and not an array -/
+def arrayOf (c : Ctx) (v : Item) : Option (List Item) :=
+  match v with
+  | .arr xs => some xs
+  | _ => if c.lax then some [v] else none
+
 /-- `exec.execArrayIndex` -/
 def execArrayIndex (c : Ctx) (item : ItemK) (s : St) (subs : List Node) (nx : Option Node)
     (v : Item) (f : Found) : Res :=
-  let arrO : Option (List Item) :=
-    match v with
-    | .arr xs => some xs
-    | _ => if c.lax then some [v] else none
-  match arrO with
+  match arrayOf c v with
   | none => returnVerboseError s f
   | some xs =>
     let s0 := { s with innermost := xs.length }
